@@ -4,7 +4,6 @@
 package operators
 
 import (
-	"bufio"
 	"bytes"
 	"errors"
 	"fmt"
@@ -53,8 +52,7 @@ func (a *Operator) Run(input string) (string, error) {
 }
 
 func (a *Operator) assemble(assembleParser *parser.Parser, input *bytes.Buffer) (string, error) {
-	fileScanner := bufio.NewScanner(bytes.NewReader(input.Bytes()))
-	fileScanner.Split(bufio.ScanLines)
+	fileScanner := utils.NewLineScanner(bytes.NewReader(input.Bytes()))
 	processor = processors.NewAssemble(a.ctx)
 	processorStack.push(processor)
 
